@@ -142,6 +142,16 @@ def r2(ctx):
     if st is None:
         raise AnalysisError("ModelState.point_labels has no setter")
     stores = _no_store_condition_ok(ctx, st, "_point_labels", st.params[1], "point_labels")
+    # the label setter touches the labelling (and, through the refresh, the membership) - no other field of the state: a cost or a
+    # likelihood wiped as a side effect of a relabel makes the result fields inconsistent
+    b_st = ana.builder(st, no_inline=ana.known)
+    others = [s for s in b_st.stores(inline_effects=False) if s.attr is not None and s.attr not in ("_point_labels", "point_labels") and s.base == Sym(st.params[0])]
+    saved_e, ctx.evidence = ctx.evidence, True
+    try:
+        ctx.check(not others, st, "the label setter stores no field of the state besides the labelling", role="setter:only-labels",
+                  expected="self._point_labels = ... ; self._update_cluster_membership()", found="; ".join(unparse(s.stmt, 60) for s in others))
+    finally:
+        ctx.evidence = saved_e
     cfg = ana.cfg(st)
     upd = ms.methods.get("_update_cluster_membership")
     if upd is None:
